@@ -68,8 +68,11 @@ def _contains(node, types):
 
 
 def _returns_in_loops(fn):
+    body = [s for s in fn.body if not (isinstance(s, ast.Expr) and isinstance(s.value, ast.Constant))]
     for x in ast.walk(fn):
         if isinstance(x, (ast.For, ast.While, ast.With, ast.Try)) and x is not fn:
+            if isinstance(x, ast.Try) and body and x is body[-1] and not x.finalbody:
+                continue          # `try: return f(..) except E: raise/return ..` as the last statement: handled by _conv
             for y in ast.walk(x):
                 if isinstance(y, ast.Return):
                     return True
@@ -129,6 +132,12 @@ def _conv(stmts, make):
             return out
         if isinstance(s, ast.Raise):
             out.append(s)
+            return out
+        if isinstance(s, ast.Try) and _has_return([s]) and i == len(stmts) - 1:
+            # last statement: each part of the try ends the helper, so the returns become the caller's statement in place
+            new = ast.Try(body=_conv(list(s.body), make), handlers=[ast.ExceptHandler(type=h.type, name=h.name, body=_conv(list(h.body), make)) for h in s.handlers],
+                          orelse=_conv(list(s.orelse), make) if s.orelse else [], finalbody=[])
+            out.append(new)
             return out
         if isinstance(s, ast.If) and (_has_return(s.body) or _has_return(s.orelse)):
             rest = stmts[i + 1:]
